@@ -37,11 +37,13 @@ def run(R):
                     return 'parts-field'
             return None
         forms = {}
-        for idx, getter in ((1, 'uri'), (2, 'method'), (3, 'version')):
-            a = b.origin(it['args'][idx])
+        # the request line reaches into_http as three arguments, or bundled in one struct built here (fields uri / method / version)
+        line_args = into_http_line(b, it)
+        for getter in ('uri', 'method', 'version'):
+            a = line_args[getter]
             forms[getter] = line_from_incoming(a, getter)
             R.check(forms[getter] is not None, 'C12.R1', '%s-from-incoming' % getter, site(b, ib), '%s argument = %s' % (getter, show(a)[:120]))
-        sz = strip_refs(b.origin(it['args'][4]))
+        sz = strip_refs(b.origin(it['args'][-1]))
         R.check(sz[0] == 'agg' and sz[1].get('variant') == 'No', 'C12.R1', 'sanitize-no', site(b, ib), 'sanitize argument = %s (reserved headers of the original request must survive)' % show(sz))
         # getters are evaluated before the request is consumed (a Parts field is owned: nothing to order)
         consume = b.calls(pat='Request::<T>::from_http', name='from_http') + [(bb, t) for bb, t in b.calls(pat='http::Request', name='into_parts') if is_in(b.origin(t['args'][0]))]
@@ -81,8 +83,10 @@ def run(R):
                         if r0 and r0[0] == 'field' and strip_refs(r0[1]) in (('env',), ('deref', ('env',))) and r0[2] in (cl[1].get('fields') or []):
                             return leaf(cl[2][cl[1]['fields'].index(r0[2])], which, depth + 1)
                 return None
-            if t_[0] == 'variant' and t_[2] == 'Ok':
+            if t_[0] == 'variant' and t_[2] in ('Ok', 'Continue'):
                 return comp(t_[1], which, depth + 1)
+            if is_call(t_, name='branch') and 'Try' in t_[1] and t_[2]:
+                return comp(t_[2][0], which, depth + 1)   # `interceptor.call(req)?`: the Continue payload is the Ok payload
             if t_[0] == 'field' and t_[2] in (0, '0') and strip_refs(t_[1])[0] == 'variant':
                 return comp(t_[1], which, depth + 1)
             if is_call(t_, name='call') and 'Interceptor' in t_[1]:
